@@ -500,3 +500,26 @@ def _unused_copy_repeated_head() -> Callable[[], None]:
         un.RuleDependency.get_rules_that_derive = orig
 
     return undo
+
+
+# ----------------------------------------------------------------------------------------------------------------
+# KF-assignment-global-equality: replace_simple_assignments_aggregate (symmetry's preparation step) removes 'X = W'
+# from an aggregate element and renames inside the element only, also when both variables are bound outside of the
+# aggregate, where the equality is a test: 'cnt(X,N) :- d(X), e(W), N = #min { Y : s(Y), X = W }.' loses it.
+# Pinned by tests/test_ast.py::test_replace_simple_assignments ('B = A' with A, B bound by bar(A,B)).
+# ----------------------------------------------------------------------------------------------------------------
+@repair("assignment-global-equality")
+def _assignment_global_equality() -> Callable[[], None]:
+    import ngo.utils.ast as ua
+
+    orig = ua.replace_simple_assignments_aggregate
+
+    def patched(lit):  # type: ignore[no-untyped-def]
+        return lit
+
+    ua.replace_simple_assignments_aggregate = patched
+
+    def undo() -> None:
+        ua.replace_simple_assignments_aggregate = orig
+
+    return undo
